@@ -48,12 +48,19 @@ def run(tier):
                 fields.append(('stream%d.block%d.crc' % (si, bi), b['crc_bit']))
             fields.append(('stream%d.crc' % si, s['stream_crc_bit']))
         nfields += len(fields)
+        def fit(env):
+            # input blocks of 16/64 bytes are for small files; a large file gets blocks of 1/200 of its size, so
+            # that the run stays inside the horizon of the harness
+            e = dict(env)
+            if 'LBZIP2_VERIF_IN_GRANUL' in e:
+                e['LBZIP2_VERIF_IN_GRANUL'] = str(max(int(e['LBZIP2_VERIF_IN_GRANUL']), len(data) // 200 // 4 * 4))
+            return e
         for fname, start in fields:
             for k in range(32):
                 m = bzgen.flip(data, start + k)
                 for args, env in configs:
-                    cases.append({'argv': ['lbzip2', '-d'] + args, 'env': env, 'stdin': m})
-                    meta.append((name, fname, k, args, env, m))
+                    cases.append({'argv': ['lbzip2', '-d'] + args, 'env': fit(env), 'stdin': m})
+                    meta.append((name, fname, k, args, fit(env), m))
         if len(fields) >= 2:
             pick = [fields[0], fields[len(fields) // 2], fields[-1]]
             explore_targets.append((name, data, pick))
@@ -91,7 +98,7 @@ def run(tier):
             m = bzgen.flip(data, start + 7)
             for W in (2, 3):
                 ex.add('schedules', 'fast', ['-n%d' % W, '-d'], m, orc, '%s %s bit7 W=%d' % (name, fname, W),
-                       {'setenv': {'LBZIP2_VERIF_IN_GRANUL': '64'}})
+                       {'setenv': {'LBZIP2_VERIF_IN_GRANUL': str(max(64, len(data) // 200 // 4 * 4))}})
     done = 0
     for d in range(1, (1 if quick else 2) + 1):
         if not ex.run_pass(d):
